@@ -402,9 +402,21 @@ theorem ltok_other (ext : IExt) (lx : LExt) (t : Tok) (h : t.type ≠ "link_open
 theorem ltok_text (ext : IExt) (lx : LExt) : ∀ lvl c, LTok ext lx (mkInlineTok "text" "" 0 lvl c "" "") :=
   fun _ _ => ltok_other _ _ _ (by simp [mkInlineTok, Tok.type])
 
+/-- what the link rule needs of a token predicate: tokens that are neither `link_open` nor `image` satisfy it, and so does a
+    `link_open` whose first attribute is an `href` that arose legitimately -/
+structure LinkN (ext : IExt) (lx : LExt) (N : Tok → Prop) : Prop where
+  other : ∀ t, t.children = none → t.type ≠ "link_open" → t.type ≠ "image" → N t
+  linkOpen : ∀ t href, t.children = none → t.type = "link_open" → t.attrs.head? = some ("href", .s (String.ofList href)) → LinkSrc ext lx href → N t
+
+theorem LinkN.text {ext : IExt} {lx : LExt} {N : Tok → Prop} (h : LinkN ext lx N) : ∀ lvl c, N (mkInlineTok "text" "" 0 lvl c "" "") :=
+  fun _ _ => h.other _ rfl (by simp [mkInlineTok, Tok.type]) (by simp [mkInlineTok, Tok.type])
+
+theorem ltok_linkN (ext : IExt) (lx : LExt) : LinkN ext lx (LTok ext lx) :=
+  ⟨fun t _ h _ => ltok_other ext lx t h, fun _ href _ _ ha hs _ => ⟨href, ha, hs⟩⟩
+
 theorem pushOpen_tokens (s : IState) (ty tag : String) (a : List (String × AttrVal)) (md : List (String × String)) :
     ∃ (flush : List Tok) (t : Tok), (s.pushOpen ty tag a md).tokens = s.tokens ++ flush ++ [t] ∧ t.type = ty ∧ t.attrs = a
-      ∧ (∀ x ∈ flush, x.type = "text") := by
+      ∧ t.children = none ∧ (∀ x ∈ flush, x.type = "text" ∧ x.children = none) := by
   unfold IState.pushOpen IState.pushA
   simp only
   obtain ⟨lvl, lvl', p, h⟩ := push_adds s ty tag 1 "" "" ""
@@ -415,7 +427,7 @@ theorem pushOpen_tokens (s : IState) (ty tag : String) (a : List (String × Attr
       = (s.tokens ++ if s.pending.isEmpty = true then [] else [mkInlineTok "text" "" 0 lvl' p "" ""]).length := by simp
   refine ⟨if s.pending.isEmpty = true then [] else [mkInlineTok "text" "" 0 lvl' p "" ""],
     (match (mkInlineTok ty tag 1 lvl "" "" "").setAttrs' a with
-      | .mk ty tg n a m l c co mu i _ b h => Tok.mk ty tg n a m l c co mu i md b h), ?_, ?_, ?_, ?_⟩
+      | .mk ty tg n a m l c co mu i _ b h => Tok.mk ty tg n a m l c co mu i md b h), ?_, ?_, ?_, ?_, ?_⟩
   · show List.modify _ _ _ = _
     have hm := modify_last (fun t => match t with
       | .mk ty tg n a m l c co mu i _ b h => Tok.mk ty tg n a m l c co mu i md b h) ((mkInlineTok ty tag 1 lvl "" "" "").setAttrs' a)
@@ -425,33 +437,33 @@ theorem pushOpen_tokens (s : IState) (ty tag : String) (a : List (String × Attr
     exact hm
   · rfl
   · rfl
+  · rfl
   · intro x hx
     split at hx
     · cases hx
-    · simp only [List.mem_singleton] at hx; subst hx; rfl
+    · simp only [List.mem_singleton] at hx; subst hx; exact ⟨rfl, rfl⟩
 
 
-theorem linkEmit_adds (ext : IExt) (lx : LExt) (mn : Int) (inner : List IRule) (hok : ∀ r ∈ inner, IOK4 r) (had : ∀ r ∈ inner, IAdds4 (LTok ext lx) r)
+theorem linkEmit_adds (ext : IExt) (lx : LExt) {N : Tok → Prop} (hN : LinkN ext lx N) (mn : Int) (inner : List IRule) (hok : ∀ r ∈ inner, IOK4 r)
+    (had : ∀ r ∈ inner, IAdds4 N r)
     (s : IState) (labelStart labelEnd : Nat) (href title label : List Char) (hle : labelEnd ≤ s.src.length) (hk : CacheOK s)
     (hsrc : LinkSrc ext lx href) (s3 : IState) (h : linkEmit lx mn inner s labelStart labelEnd href title label = .ok s3) :
-    ∃ new, s3.tokens = s.tokens ++ new ∧ ∀ t ∈ new, LTok ext lx t := by
+    ∃ new, s3.tokens = s.tokens ++ new ∧ ∀ t ∈ new, N t := by
   unfold linkEmit at h
   simp only at h
   generalize hat : ([("href", AttrVal.s (String.ofList href))] ++ if title.isEmpty = true then [] else [("title", AttrVal.s (String.ofList title))]) = attrs at h
   generalize hmd : (if (!label.isEmpty && lx.storeLabels) = true then [("label", String.ofList label)] else ([] : List (String × String))) = metaD at h
-  obtain ⟨flush, ot, ho, hoty, hoat, hfl⟩ := pushOpen_tokens { s with pos := labelStart, posMax := labelEnd } "link_open" "a" attrs metaD
+  obtain ⟨flush, ot, ho, hoty, hoat, hoch, hfl⟩ := pushOpen_tokens { s with pos := labelStart, posMax := labelEnd } "link_open" "a" attrs metaD
   obtain ⟨o1, o2, o3, o4, o5, d, i, o6, o7⟩ := pushOpen_fields { s with pos := labelStart, posMax := labelEnd } "link_open" "a" attrs metaD
   generalize ({ s with pos := labelStart, posMax := labelEnd } : IState).pushOpen "link_open" "a" attrs metaD = s1 at h ho o1 o2 o3 o4 o5 o6 o7
-  have hopen : ∃ new, s1.tokens = s.tokens ++ new ∧ ∀ t ∈ new, LTok ext lx t := by
+  have hopen : ∃ new, s1.tokens = s.tokens ++ new ∧ ∀ t ∈ new, N t := by
     refine ⟨flush ++ [ot], by rw [ho]; simp, ?_⟩
     intro t ht
     rw [List.mem_append] at ht
     rcases ht with ht | ht
-    · exact ltok_other _ _ _ (by rw [hfl t ht]; decide)
+    · exact hN.other _ (hfl t ht).2 (by rw [(hfl t ht).1]; decide) (by rw [(hfl t ht).1]; decide)
     · simp only [List.mem_singleton] at ht; subst ht
-      intro _
-      refine ⟨href, ?_, hsrc⟩
-      rw [hoat, ← hat]; rfl
+      exact hN.linkOpen _ href hoch hoty (by rw [hoat, ← hat]; rfl) hsrc
   have hk1 : CacheOK { s1 with linkLevel := s1.linkLevel + 1 } := by unfold CacheOK; show ∀ p ∈ s1.cache, _; rw [o5]; exact hk
   unfold innerTokenize at h
   cases hl : tokenizeLoop inner mn ({ s1 with linkLevel := s1.linkLevel + 1 } : IState).posMax
@@ -461,13 +473,13 @@ theorem linkEmit_adds (ext : IExt) (lx : LExt) (mn : Int) (inner : List IRule) (
   | ok s2 =>
     rw [hl] at h
     simp only at h
-    have hinner := loop_toks4 (LTok ext lx) inner hok had mn _ false { s1 with linkLevel := s1.linkLevel + 1 } s2
+    have hinner := loop_toks4 N inner hok had mn _ false { s1 with linkLevel := s1.linkLevel + 1 } s2
       (by show s1.posMax ≤ s1.src.length; rw [o1, o2]; exact hle) hk1 hl
-    have hflush : ∀ x : IState, ∃ new, (if x.pending.isEmpty = true then x else x.pushPending).tokens = x.tokens ++ new ∧ ∀ t ∈ new, LTok ext lx t := by
+    have hflush : ∀ x : IState, ∃ new, (if x.pending.isEmpty = true then x else x.pushPending).tokens = x.tokens ++ new ∧ ∀ t ∈ new, N t := by
       intro x
       split
       · exact adds_nil rfl
-      · exact ⟨[_], rfl, fun t ht => by simp only [List.mem_singleton] at ht; subst ht; exact ltok_text ext lx _ _⟩
+      · exact ⟨[_], rfl, fun t ht => by simp only [List.mem_singleton] at ht; subst ht; exact hN.text _ _⟩
     have h2' := hflush s2
     generalize (if s2.pending.isEmpty = true then s2 else s2.pushPending) = s2' at h h2'
     unfold IState.pushClose at h
@@ -479,16 +491,16 @@ theorem linkEmit_adds (ext : IExt) (lx : LExt) (mn : Int) (inner : List IRule) (
     · rename_i outer rest i0 is _ _
       simp only [Except.ok.injEq] at h
       subst h
-      have hclose := push_addsN (LTok ext lx) (ltok_text ext lx) { s0 with metas := (i0, s0.delimiters) :: s0.metas, delimiters := outer, scopes := rest, openAt := is }
-        "link_close" "a" (-1) "" "" "" (fun lvl => ltok_other _ _ _ (by simp [mkInlineTok, Tok.type]))
+      have hclose := push_addsN N hN.text { s0 with metas := (i0, s0.delimiters) :: s0.metas, delimiters := outer, scopes := rest, openAt := is }
+        "link_close" "a" (-1) "" "" "" (fun lvl => hN.other _ rfl (by simp [mkInlineTok, Tok.type]) (by simp [mkInlineTok, Tok.type]))
       exact adds_trans (adds_trans (adds_trans (adds_trans hopen hinner) h2') h3') hclose
     · cases h
 
-theorem iadds4_link (ext : IExt) (lx : LExt) (mn : Int) (inner : List IRule) (hok : ∀ r ∈ inner, IOK4 r) (had : ∀ r ∈ inner, IAdds4 (LTok ext lx) r) :
-    IAdds4 (LTok ext lx) (ruleLink ext lx mn inner) := by
+theorem iadds4_link (ext : IExt) (lx : LExt) {N : Tok → Prop} (hN : LinkN ext lx N) (mn : Int) (inner : List IRule) (hok : ∀ r ∈ inner, IOK4 r)
+    (had : ∀ r ∈ inner, IAdds4 N r) : IAdds4 N (ruleLink ext lx mn inner) := by
   intro s silent m s' hc hk hr
   have hin : s.pos < s.src.length := by have := hc.1; have := hc.2; omega
-  have nil : ∀ x : IState, x.tokens = s.tokens → ∃ new, x.tokens = s.tokens ++ new ∧ (∀ t ∈ new, LTok ext lx t) ∧ (silent = true → new = []) :=
+  have nil : ∀ x : IState, x.tokens = s.tokens → ∃ new, x.tokens = s.tokens ++ new ∧ (∀ t ∈ new, N t) ∧ (silent = true → new = []) :=
     fun x hx => ⟨[], by simp [hx], by simp, fun _ => rfl⟩
   unfold ruleLink at hr
   rw [List.getElem?_eq_getElem hin] at hr
@@ -501,7 +513,7 @@ theorem iadds4_link (ext : IExt) (lx : LExt) (mn : Int) (inner : List IRule) (ho
       obtain ⟨r, s1⟩ := v
       rw [hp] at hr
       simp only at hr
-      have ht1 := parseLinkLabel_tok (LTok ext lx) inner hok had mn s s.pos true r s1 hc.2 hk hp
+      have ht1 := parseLinkLabel_tok N inner hok had mn s s.pos true r s1 hc.2 hk hp
       obtain ⟨r', s1', hp', hfr1, hpos1, hr1⟩ := parseLinkLabel4 inner hok mn s s.pos true hc.2 hk
       rw [hp] at hp'; simp only [Except.ok.injEq, Prod.mk.injEq] at hp'; obtain ⟨rfl, rfl⟩ := hp'
       split at hr
@@ -530,7 +542,7 @@ theorem iadds4_link (ext : IExt) (lx : LExt) (mn : Int) (inner : List IRule) (ho
               · simp only [Except.ok.injEq, Prod.mk.injEq] at href
                 obtain ⟨rfl, rfl⟩ := href
                 exact ⟨ht1, hfr1.2.2.2.2.2, hfr1.1, fun pos h t l he => by simp only [Option.some.injEq, Prod.mk.injEq] at he; obtain ⟨_, rfl, _⟩ := he; exact hsrc1⟩
-              · have ht2 := linkRef_tok (LTok ext lx) lx mn inner hok had s1 (s.pos + 1) r.toNat s.posMax pos1 s2 o hend1 hfr1.2.2.2.2.2 href
+              · have ht2 := linkRef_tok N lx mn inner hok had s1 (s.pos + 1) r.toNat s.posMax pos1 s2 o hend1 hfr1.2.2.2.2.2 href
                 obtain ⟨s2', o', h2', hfr2, _, _⟩ := linkRef4 lx mn inner hok s1 (s.pos + 1) r.toNat s.posMax pos1 hend1 hfr1.2.2.2.2.2 hp1
                 rw [href] at h2'; simp only [Except.ok.injEq, Prod.mk.injEq] at h2'; obtain ⟨rfl, rfl⟩ := h2'
                 refine ⟨ht2.trans ht1, hfr2.2.2.2.2.2, hfr2.1.trans hfr1.1, ?_⟩
@@ -553,7 +565,7 @@ theorem iadds4_link (ext : IExt) (lx : LExt) (mn : Int) (inner : List IRule) (ho
                   rw [he] at hr
                   simp only [Except.ok.injEq, Prod.mk.injEq] at hr
                   obtain ⟨_, rfl⟩ := hr
-                  obtain ⟨new, hn1, hn2⟩ := linkEmit_adds ext lx mn inner hok had s2 (s.pos + 1) r.toNat hrf title label
+                  obtain ⟨new, hn1, hn2⟩ := linkEmit_adds ext lx hN mn inner hok had s2 (s.pos + 1) r.toNat hrf title label
                     (by rw [hsrc2]; have := hc.2; omega) hk2 (hlsrc pos hrf title label rfl) s3 he
                   exact ⟨new, by show s3.tokens = _; rw [hn1, ht2], hn2, by simp⟩
 
@@ -593,7 +605,7 @@ theorem linkChain_adds4 (cls : QCls) (ext : IExt) (lx : LExt) (newline escape ba
       · cases hr
     · split at hr
       · simp at hr; subst hr
-        exact iadds4_link ext lx mn _ (linkChain_ok4 cls ext lx newline escape backticks strike emphasis link autolink htmlInline entity mn d) ih
+        exact iadds4_link ext lx (ltok_linkN ext lx) mn _ (linkChain_ok4 cls ext lx newline escape backticks strike emphasis link autolink htmlInline entity mn d) ih
       · cases hr
     · split at hr
       · simp at hr; subst hr
@@ -621,12 +633,11 @@ theorem ltok_closed (ext : IExt) (lx : LExt) (strike emphasis : Bool) : TokClose
     simp only [emphTypes, emTypes, sTypes, List.mem_append] at hty
     rcases hty with hty | hty <;> split at hty <;> simp at hty
 
-theorem linkPost_toks (ext : IExt) (lx : LExt) (strike emphasis : Bool) (s : IState) (h : AllTok (LTok ext lx) s) :
-    AllTok (LTok ext lx) ((linkPost strike emphasis).foldl (fun acc f => f acc) s) := by
-  have hN := ltok_closed ext lx strike emphasis
-  have hb : ∀ s, AllTok (LTok ext lx) s → AllTok (LTok ext lx) (balancePairsL s) := fun s h => h
-  have foldE : ∀ (l : List (Nat × List Delim)) (ts : List Tok), emphasis = true → (∀ t ∈ ts, LTok ext lx t) →
-      ∀ t ∈ l.foldl (fun ts p => emphPostGo p.2 p.2.length ((p.2.length : Int) - 1) ts) ts, LTok ext lx t := by
+theorem linkPost_toks {N : Tok → Prop} (strike emphasis : Bool) (hN : TokClosed N (emphTypes strike emphasis)) (s : IState) (h : AllTok N s) :
+    AllTok N ((linkPost strike emphasis).foldl (fun acc f => f acc) s) := by
+  have hb : ∀ s, AllTok N s → AllTok N (balancePairsL s) := fun s h => h
+  have foldE : ∀ (l : List (Nat × List Delim)) (ts : List Tok), emphasis = true → (∀ t ∈ ts, N t) →
+      ∀ t ∈ l.foldl (fun ts p => emphPostGo p.2 p.2.length ((p.2.length : Int) - 1) ts) ts, N t := by
     intro l
     induction l with
     | nil => intro ts _ h; exact h
@@ -634,8 +645,8 @@ theorem linkPost_toks (ext : IExt) (lx : LExt) (strike emphasis : Bool) (s : ISt
       intro ts hem h
       simp only [List.foldl_cons]
       exact ih _ hem (emphPostGo_toks hN (by intro ty hty; simp [emphTypes, hem, hty]) _ _ _ _ h)
-  have foldS : ∀ (l : List (Nat × List Delim)) (ts : List Tok), strike = true → (∀ t ∈ ts, LTok ext lx t) →
-      ∀ t ∈ l.foldl (fun ts p => strikeSwap (strikeMark p.2 p.2.length 0 ts []).2.reverse (strikeMark p.2 p.2.length 0 ts []).1) ts, LTok ext lx t := by
+  have foldS : ∀ (l : List (Nat × List Delim)) (ts : List Tok), strike = true → (∀ t ∈ ts, N t) →
+      ∀ t ∈ l.foldl (fun ts p => strikeSwap (strikeMark p.2 p.2.length 0 ts []).2.reverse (strikeMark p.2 p.2.length 0 ts []).1) ts, N t := by
     intro l
     induction l with
     | nil => intro ts _ h; exact h
@@ -643,12 +654,12 @@ theorem linkPost_toks (ext : IExt) (lx : LExt) (strike emphasis : Bool) (s : ISt
       intro ts hst h
       simp only [List.foldl_cons]
       exact ih _ hst (strikeSwap_toks _ _ (strikeMark_toks hN (by intro ty hty; simp [emphTypes, hst, hty]) _ _ _ _ _ h))
-  have hs : strike = true → ∀ s, AllTok (LTok ext lx) s → AllTok (LTok ext lx) (strikePostL s) := by
+  have hs : strike = true → ∀ s, AllTok N s → AllTok N (strikePostL s) := by
     intro hst s h
     unfold strikePostL AllTok
     simp only
     exact foldS _ _ hst (strikeSwap_toks _ _ (strikeMark_toks hN (by intro ty hty; simp [emphTypes, hst, hty]) _ _ _ _ _ h))
-  have he : emphasis = true → ∀ s, AllTok (LTok ext lx) s → AllTok (LTok ext lx) (emphasisPostL s) := by
+  have he : emphasis = true → ∀ s, AllTok N s → AllTok N (emphasisPostL s) := by
     intro hem s h
     unfold emphasisPostL AllTok
     simp only
@@ -690,7 +701,7 @@ theorem link_sources (cls : QCls) (ext : IExt) (lx : LExt) (newline escape backt
         rcases ht with ht | rfl
         · exact h1 t ht
         · exact ltok_text ext lx _ _
-    have h3 := linkPost_toks ext lx strike emphasis _ h2
+    have h3 := linkPost_toks strike emphasis (ltok_closed ext lx strike emphasis) _ h2
     subst h
     split
     · exact fragmentsJoin_toks (ltok_closed ext lx strike emphasis) _ 0 _ (Nat.le_refl _) h3
